@@ -171,8 +171,8 @@ def pState : P SimState := do
 /-! truth (C09) -/
 
 def pSoftwareT : P SoftwareT := do
-  let n ← tok; let op ← pNat; let ha ← pNat; let hv ← pNat; let ne ← pNat
-  pure { name := n, op := op, healthActual := ha, healthVisible := hv, numExec := ne }
+  let n ← tok; let op ← pNat; let ha ← pNat; let hv ← pNat; let ne ← pNat; let idle ← pBool
+  pure { name := n, op := op, healthActual := ha, healthVisible := hv, numExec := ne, idleFtp := idle }
 
 def pFileT : P FileT := do
   let n ← tok; let h ← pNat; let v ← pNat; let a ← pNat
